@@ -155,16 +155,20 @@ CLAIMED = {
         technique="Coq proof (induction over the supply list) + refutation witness by vm_compute + trace correspondence",
         ref='6/C02'),
     'C04': dict(
-        text=("Proof (partial): payload level, all three protocol classes: what encoder e writes, decoder d (same version or "
+        text=("Proof: payload level, all three protocol classes: what encoder e writes, decoder d (same version or "
               "Loose) reads back as the equal item with the same id - requests, notifications (incl. [] vs {} params), results, "
               "errors, whole batches; format predicates of 2.0 and 1.0 (1.0: no named params, no batches); the loose decoder "
               "agrees with both strict encoders; auto-detection always settles on a decoder compatible with the encoder; every "
               "encoded message is printable ASCII, hence newline-free (induction over JSON values, all Unicode incl. lone "
-              "surrogates and astral characters). NOT proved: the text-level round trip loads(print v) = v, which is tied by "
-              "the byte-exact correspondence only. Correspondence: real *_message classmethods byte-exact vs Json.print; "
+              "surrogates and astral characters); text level: the parser is a left inverse of the printer, "
+              "json.loads(json.dumps v) = v, for every value within the decoder's nesting / digit limits with distinct object keys, "
+              "no high surrogate directly followed by a low one, and float tokens satisfying the float oracle (repr(x) is read back "
+              "as itself: proved for the shapes float.__repr__ produces, assumed in general) - composed with UTF-8 decoding into "
+              "message_to_item (encode_payload p) = payload_to_item p, i.e. the round trips hold down to the bytes on the wire. "
+              "Correspondence: real *_message classmethods byte-exact vs Json.print; "
               "message_to_item and detect_protocol on member-set x value-type payloads, batches and a malformed stream."),
         note=TB + "Floats are opaque repr tokens; strings avoid a high surrogate directly followed by a low one (json merges them, note N4).",
-        technique="Coq proof (symbolic evaluation of the classifiers on built payloads; nested induction for the printer) + byte-exact vm_compute correspondence in both directions",
+        technique="Coq proof (symbolic evaluation of the classifiers on built payloads; nested induction for the printer; parser/printer round trip by induction over strings, digits and nested values with explicit fuel) + byte-exact vm_compute correspondence in both directions",
         ref='6/C04'),
     'C05': dict(
         text=("Proof: for EVERY byte string, connection state and protocol class receive_message yields items, a completed "
